@@ -188,6 +188,8 @@ def c01(prop, tier):
     # a replica whose writes and merges overlapped against one that received the same entries one after the other (spec/IndexRace.tla)
     import sched_family
     sched_family.run_indexrace(ck, prop, tier)
+    # route "load from disk" with limits on a live instance: a replica whose log was cut shows what its log holds (spec/HeadsCache.tla)
+    sched_family.run_headscache(ck, prop, tier, 60 if tier == 'thorough' else 8)
     return ck.finish()
 
 
@@ -262,6 +264,8 @@ def c15(prop, tier):
     for stype in (['log', 'kv', 'doc'] if thorough else ['log', 'kv']):
         res = run_core(ck, prop, stype, tier, extra={'load_limits': True}, **sz)
         ck.extra['limited_loads'] = ck.extra.get('limited_loads', 0) + res.get('stats', {}).get('limited_loads', 0)
+    # limited loads on a live instance (after a full load, after another limited load, before and after writes and replications)
+    sched_family.run_headscache(ck, prop, tier, 80 if thorough else 16)
     return ck.finish()
 
 
@@ -302,6 +306,9 @@ def c13(prop, tier):
 
 def replay(prop, path):
     p = json.load(open(path))
+    if p.get('command') == 'headscache':
+        import sched_family
+        return sched_family.replay(prop, path)
     if p.get('command') == 'core':
         res = vlib.run_vh('core', p['input'], tag='replay')
         vs = [v for v in res.get('violations', []) if v['kind'] in KINDS.get(prop, set())]
